@@ -42,6 +42,8 @@ type srun struct {
 	stopReq, cancelReq, graceReq            bool
 	stopRet, graceRet                       atomic.Bool
 	stopRetLogged, graceRetLogged, ecLogged bool
+	stop2Req, stop2RetLogged                bool // a second Stop() overlapping the first
+	stop2Ret                                atomic.Bool
 	sawErrBad                               bool
 	rounds                                  atomic.Int64 // rounds of the inner discipline's scheduler (counting hook)
 }
@@ -134,6 +136,19 @@ func (r *srun) observe() {
 		r.emit(obs{E: "StopRet"})
 		if n := moduleGoroutines(); n > 0 {
 			r.emit(obs{E: "Leak", K: n, Note: "goroutines of the library still alive when Stop() had returned"})
+		}
+	}
+	if r.stop2Ret.Load() && !r.stop2RetLogged {
+		r.stop2RetLogged = true
+		r.mu.Lock()
+		n := len(r.running)
+		r.mu.Unlock()
+		if n > 0 {
+			r.emit(obs{E: "HandleAfterStop", K: n, Note: "Handle calls still running when a second, overlapping Stop() returned"})
+		}
+		r.emit(obs{E: "Stop2Ret"})
+		if n := moduleGoroutines(); n > 0 {
+			r.emit(obs{E: "Leak", K: n, Note: "goroutines of the library still alive when a second, overlapping Stop() had returned"})
 		}
 	}
 	if r.graceRet.Load() && !r.graceRetLogged {
@@ -243,7 +258,13 @@ func moduleGoroutines() int {
 func (r *srun) control(what string) {
 	switch what {
 	case "stop":
-		if r.stopReq || r.stopFn == nil {
+		if r.stopFn == nil || r.stop2Req {
+			return
+		}
+		if r.stopReq { // a second call overlapping the first: it owes the same guarantees when it returns
+			r.stop2Req = true
+			r.emit(obs{E: "Stop2"})
+			go func() { r.stopFn(); r.stop2Ret.Store(true) }()
 			return
 		}
 		r.stopReq = true
@@ -272,7 +293,7 @@ func (r *srun) finish() {
 	switch {
 	case r.stopReq || r.cancelReq:
 		// no help from the environment: running Handle calls are only ended by their context
-		if r.stopReq && !r.waitFor(300, func() bool { return r.stopRet.Load() }) {
+		if r.stopReq && !r.waitFor(300, func() bool { return r.stopRet.Load() && (!r.stop2Req || r.stop2Ret.Load()) }) {
 			r.emit(obs{E: "StopHang", Note: "Simple.Stop() has not returned within the virtual deadline"})
 		}
 		if !r.waitFor(300, terminated) {
@@ -374,6 +395,9 @@ func TestRecordSimple(t *testing.T) {
 				plan = append(plan, planned{rnd.Intn(steps), terms[rnd.Intn(len(terms))]})
 				if rnd.Intn(3) == 0 {
 					plan = append(plan, planned{rnd.Intn(steps), terms[rnd.Intn(len(terms))]})
+				}
+				if plan[0].what == "stop" && rnd.Intn(2) == 0 { // a second Stop() right behind the first, both pending together
+					plan = append(plan, planned{plan[0].at, "stop"})
 				}
 				if cfg.Graceful && len(terms) > 1 && rnd.Intn(3) == 0 {
 					// a rough stop / cancellation while a graceful stop is pending (inputs still open)
